@@ -14,7 +14,7 @@ Inductive yval :=
 | YInt (n : N)
 | YNull
 | YList (l : list yval)
-| YMap.
+| YMap (keys : list str).   (* a mapping; the templates only ever look at its keys *)
 
 (* template types occurring in config_template() *)
 Inductive oty :=
@@ -117,11 +117,12 @@ Section Resolve.
     | TStrSeq, Some (YStr x, _) => COk (CStrs (split_ws x))
     | TStrSeq, Some (YList l, _) =>
         match all_strs l with Some xs => COk (CStrs xs) | None => CTypeError end
+    | TStrSeq, Some (YMap ks, _) => COk (CStrs ks)     (* StrSeq: list(value) of a mapping = its keys *)
     | TStrSeq, Some _ => CTypeError
     | TOptFilename, None | TOptFilename, Some (YNull, _) => COk CNone
     | TOptFilename, Some (YStr p, src) => COk (CStr (resolve_filename p src))
     | TOptFilename, Some _ => CTypeError
-    | TDict, Some (YMap, _) => COk CDict
+    | TDict, Some (YMap _, _) => COk CDict
     | TDict, Some _ => CTypeError
     | TDict, None => CNotFound
     end.
@@ -130,12 +131,13 @@ Section Resolve.
     convert ty (resolve stack key).
 End Resolve.
 
-(* settings["input"]["exclude_filters"].all_contents(): the items of every source, highest
-   priority first; a string contributes its characters; None = not iterable (error) *)
+(* the exclude patterns of main(): for every source that sets input.exclude_filters (resolve(),
+   highest priority first) the value must be a list of strings (null contributes nothing); the
+   lists are concatenated.  None = ConfigTypeError *)
 Definition items_of (v : yval) : option (list yval) :=
   match v with
-  | YList l => Some l
-  | YStr x => Some (map (fun c => YStr [c]) x)
+  | YList l => match all_strs l with Some _ => Some l | None => None end
+  | YNull => Some []
   | _ => None
   end.
 
@@ -161,7 +163,7 @@ Definition truthy (v : yval) : bool :=
   | YInt n => negb (n =? 0)%N
   | YNull => false
   | YList l => negb (match l with [] => true | _ => false end)
-  | YMap => true
+  | YMap ks => negb (match ks with [] => true | _ => false end)
   end.
 
 Definition rel_to_config (stack : list source) : bool :=
